@@ -588,20 +588,10 @@ func addTransceiverSDP(
 		// validation failed.
 		// In addition this makes our SDP compliant with RFC 4566 Section 5.7:
 		// https://datatracker.ietf.org/doc/html/rfc4566#section-5.7
-		descr.WithMedia(&sdp.MediaDescription{
-			MediaName: sdp.MediaName{
-				Media:   transceiver.kind.String(),
-				Port:    sdp.RangedPort{Value: 0},
-				Protos:  []string{"UDP", "TLS", "RTP", "SAVPF"},
-				Formats: []string{"0"},
-			},
-			ConnectionInformation: &sdp.ConnectionInformation{
-				NetworkType: "IN",
-				AddressType: "IP4",
-				Address: &sdp.Address{
-					Address: "0.0.0.0",
-				},
-			},
+		addRejectedMediaSection(descr, midValue, sdp.MediaName{
+			Media:   transceiver.kind.String(),
+			Protos:  []string{"UDP", "TLS", "RTP", "SAVPF"},
+			Formats: []string{"0"},
 		})
 
 		return false, nil
@@ -663,6 +653,27 @@ func addTransceiverSDP(
 	return true, nil
 }
 
+// addRejectedMediaSection adds a media section that is rejected (port zero). It keeps the media type
+// and the mid of the section it answers, so that the sections of offer and answer still correspond
+// one-for-one, and is not part of the BUNDLE group.
+func addRejectedMediaSection(descr *sdp.SessionDescription, midValue string, name sdp.MediaName) {
+	name.Port = sdp.RangedPort{Value: 0}
+	if len(name.Formats) == 0 {
+		name.Formats = []string{"0"}
+	}
+
+	descr.WithMedia((&sdp.MediaDescription{
+		MediaName: name,
+		ConnectionInformation: &sdp.ConnectionInformation{
+			NetworkType: "IN",
+			AddressType: "IP4",
+			Address: &sdp.Address{
+				Address: "0.0.0.0",
+			},
+		},
+	}).WithValueAttribute(sdp.AttrKeyMID, midValue))
+}
+
 type simulcastRid struct {
 	id        string
 	attrValue string
@@ -678,6 +689,9 @@ type mediaSection struct {
 	sctpInit        []byte
 	matchExtensions map[string]int
 	rids            []*simulcastRid
+	// rejected is the remote media section that is answered with a rejected
+	// media section because no transceiver can be associated with it.
+	rejected *sdp.MediaDescription
 }
 
 func bundleMatchFromRemote(matchBundleGroup *string) func(mid string) bool {
@@ -729,7 +743,14 @@ func populateSDP(
 		bundleCount++
 	}
 
-	for i, section := range mediaSections {
+	firstSection := true
+	for _, section := range mediaSections {
+		if section.rejected != nil {
+			addRejectedMediaSection(descr, section.id, section.rejected.MediaName)
+
+			continue
+		}
+
 		if section.data && len(section.transceivers) != 0 {
 			return nil, errSDPMediaSectionMediaDataChanInvalid
 		} else if !isPlanB && len(section.transceivers) > 1 {
@@ -737,7 +758,8 @@ func populateSDP(
 		}
 
 		shouldAddID := true
-		shouldAddCandidates := i == 0
+		shouldAddCandidates := firstSection
+		firstSection = false
 		if section.data {
 			if err = addDataMediaSection(
 				descr,
